@@ -126,4 +126,15 @@ theorem C12_code_centroid_packed (expf : Rat → Rat) (w : W) (ls : List Nat) (n
     BBGen.centroid_from_sum expf (PV.arr w ls) (PV.int n) (PV.bool true)
       = PV.arr .u8 (pack (centroidFromSum ls n)) := gen_centroid_packed expf w ls n hk hn
 
+
+/-- code: bit `i` of the centroid the translated `centroid_from_sum` returns for `n ≥ 2` samples is set iff at least half of
+the samples have it (`n ≤ 2·k_i`: ties set) -/
+theorem C12_code_majority (expf : Rat → Rat) (w : W) (ls : List Nat) (n : Nat) (h2 : 2 ≤ n)
+    (hk : ∀ k ∈ ls, k ≤ n) (hn : n < 2 ^ 53) :
+    BBGen.centroid_from_sum expf (PV.arr w ls) (PV.int n) (PV.bool false)
+      = PV.arr .u8 (ls.map (fun k => if n ≤ 2 * k then 1 else 0)) := by
+  rw [gen_centroid_unpacked expf w ls n hk hn]
+  have : ¬ n ≤ 1 := by omega
+  simp [centroidFromSum, this, rowToNat, List.map_map, Function.comp]
+
 end BB
